@@ -353,3 +353,15 @@ Fixpoint check_C04_terminal_first_go (links : list (option nat)) (seen : list te
   end.
 Definition check_C04_terminal_first (links : list (option nat)) (t : list tev) : bool :=
   check_C04_terminal_first_go links [] t.
+
+(* ---------- C04: a failing callback never escapes the actor (settled traces) ---------- *)
+(* an actor whose spawn returned Ok and one of whose callbacks after pre_start returned Err or
+   panicked has, once everything has settled, a join handle that completed normally (TJoin is only
+   logged for Ok(..) of the JoinHandle) - unless the harness itself aborted the task *)
+Definition failed_cb (c : nat) (t : list tev) : bool :=
+  has_ev (fun e => match e with
+                   | TExit j PreStart _ => false
+                   | TExit j _ (RErr _) | TExit j _ (RPanic _) => Nat.eqb j c
+                   | _ => false end) t.
+Definition check_C04_join (n : nat) (t : list tev) : bool :=
+  forallb (fun c => negb (started_ok c t && failed_cb c t) || ended c t) (seq 0 n).
